@@ -373,11 +373,18 @@ Lemma cast_substring_length_l : forall l maxlen, (0 <= maxlen < 2 ^ 64 - 1)%Z ->
   substring_length_casts l maxlen = true -> in_uint64 l.
 Proof. unfold substring_length_casts, in_uint64. intros. rewrite two64 in *. lia. Qed.
 
-Lemma cast_predicate_partial_l : forall x, predicate_casts x = true -> (x < 2 ^ 64)%Z -> in_uint64 x.
-Proof. unfold predicate_casts, in_uint64. intros. lia. Qed.
+Lemma cast_predicate_l : forall x len, (0 <= len < 2 ^ 64)%Z -> predicate_casts x len = true -> in_uint64 x.
+Proof. unfold predicate_casts, in_uint64. intros. rewrite two64 in *. lia. Qed.
 
-Lemma cast_count_partial_l : forall x, count_casts x = true -> (x < 2 ^ 64)%Z -> in_uint64 x.
-Proof. unfold count_casts, in_uint64. intros. lia. Qed.
+Lemma cast_count_l : forall x, count_casts x = true -> in_uint64 x.
+Proof. unfold count_casts, in_uint64. intros. rewrite two64 in *. lia. Qed.
 
-Lemma cast_int64_partial_l : forall x, int64_casts x = true -> (- 2 ^ 63 <= x < 2 ^ 63)%Z -> in_int64 x.
-Proof. unfold in_int64. intros. assumption. Qed.
+Lemma cast_int64_l : forall x, int64_casts x = true -> in_int64 x.
+Proof. unfold int64_casts, in_int64. intros. rewrite two63 in *. lia. Qed.
+
+Lemma cast_padding_l : forall l, padding_casts l = true -> in_uint64 l.
+Proof. unfold padding_casts, in_uint64. intros. rewrite two64 in *. lia. Qed.
+
+Lemma math_constant_index_l : forall p size, (0 < p)%Z -> (0 < size)%Z ->
+  (0 <= math_constant_index p size < size)%Z.
+Proof. unfold math_constant_index. intros. destruct (p <? size)%Z eqn:E; lia. Qed.
